@@ -179,7 +179,7 @@ def spec(e, c, u, l):
     return attrs, binds
 
 
-PLACEMENTS = ["none", "top", "in_group", "in_repeat", "in_group_in_repeat", "in_repeat_in_group", "on_group", "on_repeat", "two"]
+PLACEMENTS = ["none", "top", "in_group", "in_repeat", "in_group_in_repeat", "in_repeat_in_group", "on_group", "on_repeat", "two", "on_loop", "on_select_named_like_a_group"]
 
 
 def build(combo, placement, rng, dataset="trees", save_name="prop_a", extra_col=None, rows2=False, namespaces=None, second_row=None, settings=None, audit=False):
@@ -210,7 +210,21 @@ def build(combo, placement, rng, dataset="trees", save_name="prop_a", extra_col=
         survey += [{"type": "begin group", "name": "g", "label": "G", **sv}, {"type": "text", "name": "q2", "label": "Q2"}, {"type": "end group"}]
     elif placement == "on_repeat":
         survey += [{"type": "begin repeat", "name": "r", "label": "R", **sv}, {"type": "text", "name": "q2", "label": "Q2"}, {"type": "end repeat"}]
+    if placement == "on_loop":
+        survey += [{"type": "begin loop over crops", "name": "g", "label": "G", **sv}, {"type": "text", "name": "q2", "label": "Q2"}, {"type": "end loop"}]
+    elif placement == "on_select_named_like_a_group":
+        # a question, not a group: its list just happens to be called groups / repeat_opts
+        survey.append({"type": rng.choice(["select_one groups", "select_multiple repeat_opts", "select_one groups or_other"]), "name": "q2", "label": "Q2", **sv})
+    # the rows that open and close a group or repeat, under any of their accepted spellings
+    spell = {"begin group": ["begin group", "begin_group"], "end group": ["end group", "end_group"],
+             "begin repeat": ["begin repeat", "begin_repeat", "begin lgroup", "begin_lgroup", "begin looped group", "begin_looped group"],
+             "end repeat": ["end repeat", "end_repeat", "end lgroup", "end_lgroup", "end looped group"]}
+    for row in survey:
+        if row["type"] in spell:
+            row["type"] = rng.choice(spell[row["type"]])
     form = {"survey": survey, "entities": [ent] + ([second_row or {"dataset": "d2", "label": "'x'"}] if rows2 else [])}
+    if placement in ("on_loop", "on_select_named_like_a_group"):
+        form["choices"] = [{"list_name": ln, "name": n, "label": n.upper()} for ln in ("crops", "groups", "repeat_opts") for n in ("a", "b")]
     if namespaces:
         form["settings"] = [{"namespaces": namespaces}]
     if settings:
@@ -284,7 +298,7 @@ def _check(args):
     rng = rng_for(seed, PID, "oracle", i)
     kw = {}
     expect_reject = spec(*combo) is None
-    if placement in ("in_repeat", "in_group_in_repeat", "in_repeat_in_group", "on_group", "on_repeat"):
+    if placement in ("in_repeat", "in_group_in_repeat", "in_repeat_in_group", "on_group", "on_repeat", "on_loop"):
         expect_reject = True
     if variant == "bad_dataset":
         kw["dataset"] = rng.choice(["__x", "a.b", "1a", "a b"])
